@@ -25,6 +25,7 @@ pub fn bounds(args: &[String]) {
     // the recorded witness first, then a sweep
     let mut pairs: Vec<(f64, f64)> = vec![(1.001, 0.9999999), (1.1, 0.9999999), (1.00001, 0.999983)];
     for _ in 0..n {
+        crate::util::tick_idx(0, serde_json::Value::Null);
         let b = match rng.below(4) { 0 => 1.001, 1 => 2.0, 2 => 1. + (10f64).powf(-rng.unit() * 6.), _ => 1. + rng.unit() };
         let jac = match rng.below(5) { 0 => 1.0 - (10f64).powf(-rng.unit() * 12.), 1 => (10f64).powf(-rng.unit() * 12.), 2 => 0.0, 3 => 1.0, _ => rng.unit() };
         pairs.push((b, jac));
@@ -43,6 +44,7 @@ pub fn bounds(args: &[String]) {
     }
     // containment of the true Jaccard index for the collision probability of (u, v, J)
     for _ in 0..n {
+        crate::util::tick_idx(0, serde_json::Value::Null);
         let b = match rng.below(3) { 0 => 1.001, 1 => 2.0, _ => 1. + rng.unit() };
         let u = match rng.below(3) { 0 => 0.5, 1 => (10f64).powf(-rng.unit() * 6.), _ => rng.unit().max(1e-9) };
         let v = 1. - u;
@@ -63,6 +65,61 @@ pub fn bounds(args: &[String]) {
             }
         }
     }
+    // the fraction of equal registers between two sketches must not depend on what the sketchers saw before a reinit
+    for round in 0..(n / 500).max(4) {
+        crate::util::tick_idx(round, serde_json::Value::Null);
+        let m = [16u64, 100, 1001][rng.below(3) as usize];
+        let (b, a, q) = [(1.001f64, 20f64, 65534u64), (1.5, 20., 100), (2.0, 20., 62)][rng.below(3) as usize];
+        let params = SetSketchParams::new(b, m, a, q);
+        let base = rng.next_u64() >> 8;
+        let big = 20000u64;
+        let (na, nb, both) = (300u64, 300u64, 150u64);
+        let mk = |recycle: bool, lo: u64, hi: u64| {
+            let mut s = SetSketcher::<u16, u64, FnvHasher>::new(params, BuildHasherDefault::<FnvHasher>::default());
+            if recycle {
+                for i in 0..big { s.sketch(&(base + 1_000_000 + i)).unwrap(); }
+                s.reinit();
+            }
+            for i in lo..hi { s.sketch(&(base + i)).unwrap(); }
+            s.get_signature().clone()
+        };
+        let (fa, fb) = (mk(false, 0, na), mk(false, na - both, na - both + nb));
+        let (ra, rb) = (mk(true, 0, na), mk(true, na - both, na - both + nb));
+        let frac = |x: &Vec<u16>, y: &Vec<u16>| probminhash::jaccard::get_jaccard_index_estimate(x, y).unwrap_or(-1.0);
+        tried += 1;
+        if frac(&fa, &fb).to_bits() != frac(&ra, &rb).to_bits() {
+            add("collisions-after-reinit", format!("fraction of equal registers {} between two recycled sketchers (20000 items, reinit) vs {} between new ones, same sets of 300 items with 150 common (m={}, b={})",
+                frac(&ra, &rb), frac(&fa, &fb), m, b), json!({"m": m, "b": b, "a": a, "q": q, "base": base, "sets": [[0, na], [na - both, na - both + nb]], "before_reinit": [1_000_000, big]}));
+        }
+        // identical sketches collide everywhere
+        if frac(&fa, &fa) != 1.0 {
+            add("collisions-identical", format!("fraction of equal registers of a sketch with itself is {} (m={})", frac(&fa, &fa), m), json!({"m": m, "b": b, "base": base, "set": [0, na]}));
+        }
+    }
+    // tiny sketches: two different single items almost never give equal registers (probability about b^-k summed over
+    // the register law, far below 1/2 for every parameter tuple used here); 50 pairs, at least half colliding is reported
+    for (m, b) in [(1u64, 1.001f64), (2, 1.001), (1, 2.0), (3, 1.2)] {
+        let params = SetSketchParams::new(b, m, 20., if b > 1.5 { 62 } else { 65534 });
+        let mut coll = 0u64;
+        let mut total = 0u64;
+        let base = rng.next_u64() >> 8;
+        for t in 0..50u64 {
+            crate::util::tick_idx(t, serde_json::Value::Null);
+            let mut s1 = SetSketcher::<u16, u64, FnvHasher>::new(params, BuildHasherDefault::<FnvHasher>::default());
+            let mut s2 = SetSketcher::<u16, u64, FnvHasher>::new(params, BuildHasherDefault::<FnvHasher>::default());
+            s1.sketch(&(base + 2 * t)).unwrap();
+            s2.sketch(&(base + 2 * t + 1)).unwrap();
+            for k in 0..m as usize {
+                total += 1;
+                if s1.get_signature()[k] == s2.get_signature()[k] { coll += 1; }
+            }
+        }
+        tried += 1;
+        if b < 1.5 && 2 * coll >= total {
+            add("collisions-disjoint-singletons", format!("two different single items give equal registers at {} of {} positions (m={}, b={}): the registers do not depend on the item", coll, total, m, b),
+                json!({"m": m, "b": b, "a": 20, "items": [base, base + 1], "pairs": 50}));
+        }
+    }
     println!("{}", json!({"tried": tried, "found": found, "max_excess": max_excess}));
 }
 
@@ -79,6 +136,7 @@ pub fn card(args: &[String]) {
     let mut tried = 0u64;
     let mut obs: Vec<Value> = Vec::new();
     for round in 0..n {
+        crate::util::tick_idx(round as u64, serde_json::Value::Null);
         let m = [16u64, 64, 256, 1024][rng.below(4) as usize];
         let (b, a, q) = [(1.001f64, 20f64, 65534u64), (1.2, 20., 400), (2.0, 20., 62)][rng.below(3) as usize];
         let params = SetSketchParams::new(b, m, a, q);
@@ -107,6 +165,39 @@ pub fn card(args: &[String]) {
                 }
             }
         }
+        // a recycled sketcher (reinit after the stream above) must estimate a second, smaller set exactly like a new one
+        {
+            let n2 = (card / 40).max(1);
+            let mut recycled = SetSketcher::<u32, u64, FnvHasher>::new(params, BuildHasherDefault::<FnvHasher>::default());
+            for i in 0..card { recycled.sketch(&(base + i)).unwrap(); }
+            recycled.reinit();
+            let mut fresh = SetSketcher::<u32, u64, FnvHasher>::new(params, BuildHasherDefault::<FnvHasher>::default());
+            for i in 0..n2 { recycled.sketch(&(base + 7 * card + i)).unwrap(); fresh.sketch(&(base + 7 * card + i)).unwrap(); }
+            let (c1, c2) = (recycled.get_cardinal_stats().0, fresh.get_cardinal_stats().0);
+            if c1.to_bits() != c2.to_bits() {
+                add("card-after-reinit", format!("after {} items and reinit, the estimate of a {}-item set is {} on the recycled sketcher and {} on a new one (m={}, b={})", card, n2, c1, c2, m, b),
+                    json!({"m": m, "b": b, "a": a, "q": q, "first": {"base": base, "n": card}, "second": {"base": base + 7 * card, "n": n2}}));
+            }
+        }
+        // an accumulator that only ever receives merges: the estimate never decreases, whatever the order of the pieces
+        {
+            let mut acc = SetSketcher::<u32, u64, FnvHasher>::new(params, BuildHasherDefault::<FnvHasher>::default());
+            let sizes = [card, (card / 3).max(1), (card / 10).max(1), 1];
+            let mut before = 0.0f64;
+            let mut off = 0u64;
+            for (pi, sz) in sizes.iter().enumerate() {
+                let mut piece = SetSketcher::<u32, u64, FnvHasher>::new(params, BuildHasherDefault::<FnvHasher>::default());
+                for i in 0..*sz { piece.sketch(&(base + 3 * card + off + i)).unwrap(); }
+                off += *sz;
+                acc.merge(&piece).unwrap();
+                let now = acc.get_cardinal_stats().0;
+                if !(now >= before) {
+                    add("card-decrease-merge", format!("an accumulator that only receives merges: the estimate went from {} to {} when piece {} ({} items) was merged in (m={}, b={})", before, now, pi, sz, m, b),
+                        json!({"m": m, "b": b, "a": a, "q": q, "pieces": sizes, "base": base + 3 * card}));
+                }
+                before = now;
+            }
+        }
         // merging never decreases the estimate
         let mut o = SetSketcher::<u32, u64, FnvHasher>::new(params, BuildHasherDefault::<FnvHasher>::default());
         for i in 0..(card / 2 + 1) { o.sketch(&(base + card + i)).unwrap(); }
@@ -118,4 +209,35 @@ pub fn card(args: &[String]) {
         }
     }
     println!("{}", json!({"tried": tried, "found": found, "observations": obs}));
+}
+
+
+/// search aid for C06 (only after an obligation broke): mean relative error of the estimate for small cardinalities
+/// against the property's allowance (twice the square of the advertised relative standard deviation) plus 6 standard errors
+pub fn card_mc(args: &[String]) {
+    let seed = arg_u64(args, "--seed", 1);
+    let trials = arg_u64(args, "--trials", 400);
+    let mut rng = SplitMix64::new(seed ^ 0xC06AA);
+    let mut found: Vec<Value> = Vec::new();
+    for m in [256u64, 4096] {
+        for n in [1u64, 2, 5, 20, 200] {
+            let params = SetSketchParams::new(1.001, m, 20., 65534);
+            let mut sum = 0.0f64;
+            let mut rsd = 0.0f64;
+            for t in 0..trials {
+                crate::util::tick_idx(t, json!({"m": m, "n": n}));
+                let mut s = SetSketcher::<u16, u64, FnvHasher>::new(params, BuildHasherDefault::<FnvHasher>::default());
+                for _ in 0..n { s.sketch(&(rng.next_u64() >> 4)).unwrap(); }
+                let (c, r) = s.get_cardinal_stats();
+                sum += (c - n as f64) / n as f64;
+                rsd = r;
+            }
+            let mean = sum / trials as f64;
+            let allowed = 2. * rsd * rsd + 6. * rsd / (trials as f64).sqrt();
+            if mean.abs() > allowed {
+                found.push(json!({"m": m, "n": n, "b": 1.001, "mean_rel_err": mean, "allowed": allowed, "advertised_rsd": rsd, "trials": trials, "seed": seed}));
+            }
+        }
+    }
+    println!("{}", json!({"found": found}));
 }
